@@ -19,36 +19,76 @@ CONFIG = {
             "for with optional init/cond/post, switch with cases and default, fn declarations, blocks) and every "
             "expression form (13 binary operators, 2 unary, calls, maps with array and field entries, function literals, "
             "numbers incl. int64 limits and floats, strings, true/false/null, non-ASCII identifiers); each with its "
-            "expected tree; layouts drawn from spaces, tabs, CR LF, '#' and '//' comments; ALL single-token deletions "
-            "of every small program (<= 40 tokens); map entries in arbitrary order; a case is non-trivial when distinct "
-            "as an input term",
-    "trusted": ["what is proved in Coq (C14_parse_unparse_partial): for the expression fragment (literals, identifiers, "
-                "unary operators, the thirteen binary operators at their six precedence levels, calls, parentheses) and every "
-                "statement form over it (blocks, let, assignment, return, break/continue/fallthrough, if/else chains, while, "
-                "for with optional init/condition/post, switch with optional subject/cases/default, fn declarations): if the "
-                "lexer yields the canonical tokens of the program, Parse returns exactly that program; and that the time at "
-                "which tokens are pulled from the lexer does not matter (C14_prefetch_invariance)",
-                "covered by correspondence and monitors only (not by a theorem): map literals and function literals; layout "
-                "independence of the lexer (the monitor requires the real lexer to return the canonical tokens for every "
-                "generated layout of spaces, tabs, CR LF, '#' and '//' comments); soundness, i.e. rejection of every "
-                "non-derivable token sequence (the monitor checks with the tree-directed recogniser derives_b of "
-                "Model/GcsSpec.v that whatever the real parser accepts - valid program or single-token deletion - is a "
-                "derivation of the returned tree)",
-                "the grammar itself is Model/GcsSpec.v (unparse_*, derives_b); the Go-side generator's token sequences are "
-                "cross-checked against unparse_program on every case that carries an expected tree",
-                "strconv.ParseInt/ParseFloat modelled exactly in Model/GcsNum.v and corresponded"],
-    "assumptions": ["tokens are separated by at least one white-space character or comment beginning with white space (the "
-                    "lexer's identifier terminator set makes 'a*b' an error and 'a-b' one identifier)"],
+            "expected tree; layouts drawn at random from spaces, tabs, CR LF, '#' and '//' comments, and SYSTEMATIC "
+            "layouts of the layout theorem: every token glued to the next wherever the lexer keeps them apart "
+            "(follow_ok of Proofs/GcsLayout.v, re-implemented in Go), a '#' comment / a '//' comment at every token "
+            "boundary (glued to the previous token where allowed), CR LF only, tabs only, alternating comment kinds, "
+            "unterminated comment or no newline at the end of the file; ALL single-token deletions of every small "
+            "program (<= 40 tokens) and of small programs built around map literals and function literals (brackets, "
+            "commas, '=', `fn`, terminators; <= 48 tokens) under plain, random and systematic layouts; map entries in "
+            "arbitrary order; programs holding a switch with two defaults or a map literal with a repeated field name "
+            "(must be rejected); a case is non-trivial when distinct as an input term",
+    "trusted": ["what is proved in Coq, for the executable models of lex.go and parse.go: (1) C14_parse_unparse_full - "
+                "completeness on canonical token sequences for the whole language (literals, identifiers, unary, the "
+                "thirteen binary operators at their six levels with left association, calls, parentheses where required, "
+                "map literals, function literals; blocks, let, assignment, return, break/continue/fallthrough, if/else "
+                "chains, while, for with optional init/condition/post, switch with optional subject/cases/default, fn "
+                "declarations), end to end through the lazy Parse; C14_prefetch_invariance; (2) "
+                "C14_layout_independent_lexing / C14_comments_and_whitespace_never_change_the_tree - for EVERY choice of "
+                "separators drawn from spaces, tabs, CR, LF, '#' and '//' comments before, between and after the tokens "
+                "(only condition: the byte after a token does not extend or spoil it; one white-space character always "
+                "suffices, C14_one_space_always_suffices) the lexer returns the same tokens and Parse the same tree; "
+                "(3) C14_parser_accepts_exactly_the_grammar - the grammar is the inductive relation DP of "
+                "Proofs/GcsSound.v (redundant parentheses allowed): whatever Parse accepts is a derivation of the tree it "
+                "returns (C14_parser_sound), every sentence is accepted with the tree of its derivation - redundant "
+                "parentheses, map entries in any order, `for c ; {` included (C14_parser_complete) -, the grammar gives "
+                "one tree per token sequence (C14_grammar_unambiguous); hence Parse returns an error exactly on the "
+                "sources outside the grammar (C14_rejected_iff_outside_the_grammar), in particular: any accepted source "
+                "with one bracket token deleted or inserted at any position, any well-formed program in any layout with "
+                "one bracket left out, a source whose last token is neither ';' nor '}', a `let` without identifier or '='",
+                "NOT proved: anything about the Go code itself (the models are tied to it by exact correspondence); DP is a "
+                "hand-written grammar, tied to the canonical side (unparse_*: every layout of every well-formed program is "
+                "a sentence with that tree) and to the parser model by the theorems; whether a particular deletion of a "
+                "';' or keyword leaves the language is not characterised syntactically (some deletions yield another "
+                "valid program, e.g. the ';' between `a` and `- b`) - the theorem is 'rejected iff outside DP', the "
+                "correspondence runs all single-token deletions; token positions, line numbers and error texts are not in "
+                "the statements",
+                "the grammar is strict: at most one `default` per switch, pairwise distinct field names in a map literal "
+                "(C14_switch_has_one_default, C14_map_fields_are_distinct); the parser used to accept a second default / a "
+                "repeated field name and keep only the last one (found while proving soundness, confirmed on the real "
+                "parser, repaired by 'fix: gcs parser rejects a second default in a switch' and 'fix: gcs parser rejects a "
+                "repeated field name in a map literal'); model and grammar follow the repaired code, the two sources are "
+                "corpus cases (corpus/C14/gcstree/duplicate_default.json, duplicate_map_key.json) and the generator "
+                "produces such programs; agreement of the boolean recogniser derives_b (the monitor) with DP is not proved "
+                "(both are strict; the monitor is checked against the parser, which accepts exactly DP)",
+                "the grammar of the canonical side is Model/GcsSpec.v (unparse_*); the Go-side generator's token sequences "
+                "are cross-checked against unparse_program on every case that carries an expected tree, and its "
+                "re-implementation of follow_ok is checked by the monitor (the real lexer must return the canonical "
+                "tokens for every systematic layout)",
+                "strconv.ParseInt/ParseFloat modelled exactly in Model/GcsNum.v and corresponded; the text of ItemError "
+                "tokens is not modelled"],
+    "assumptions": ["layout theorem: each token is a text the lexer produces for its type (lexeme_ok) and is followed by a "
+                    "byte that keeps it apart from the next token (follow_ok: an identifier terminator after a word - so "
+                    "'a*b' is an error, 'a-b' one identifier and a comment may not directly follow a word -, no digit "
+                    "after a number or '-', no '=' after '=' '>' '!' '<', no '>' after '<', no '/' after '/'); both are "
+                    "decidable and at least one white-space character between tokens always satisfies follow_ok"],
     "manifest": {
-        "level_text": "Kernel-checked theorems over the executable Gallina model of the Pratt parser (same precedence table, "
-                      "same prefix/infix registration, same loops as parse.go): the parser returns exactly the tree whose "
-                      "canonical token sequence it is given, for the expression fragment and every statement form, end to end "
-                      "through Parse; map and function literals, layouts and all single-token deletions are tied by "
-                      "exact tree correspondence and a derivability monitor on the real parser.",
-        "level_note": "Coq kernel; staged: expressions and all statement forms proved (completeness), map/function literals, "
-                      "lexer layout and soundness by correspondence + monitor (theorem named ..._partial).",
-        "technique": "Coq proof (left-spine decomposition of canonical token sequences, strong induction on tree size, "
-                     "simulation between lazy and prefetched token supply) + model/implementation correspondence",
+        "level_text": "Kernel-checked theorems over the executable Gallina models of the lexer and the Pratt parser (same "
+                      "state functions, precedence table, prefix/infix registration and loops as lex.go / parse.go): "
+                      "parse(unparse a) = a for the whole language incl. map and function literals, end to end through "
+                      "Parse; layout independence for all separators of white space and '#' / '//' comments; soundness "
+                      "w.r.t. an inductive grammar (nothing outside it is accepted: missing bracket at any position, "
+                      "missing final terminator, missing let parts); models tied to the Go code by exact tree / token "
+                      "correspondence incl. systematic layouts and all single-token deletions, and a derivability monitor.",
+        "level_note": "Coq kernel; full strength over the models: Parse accepts exactly the sentences of the inductive "
+                      "grammar DP with the (unique) tree of the derivation, for every layout; the grammar itself is "
+                      "hand-written (strict: one default per switch, distinct field names per map literal - the parser "
+                      "was repaired to match).",
+        "technique": "Coq proof (left-spine decomposition of canonical token sequences, joint strong induction on tree "
+                     "size for expressions and statements, simulation between lazy and prefetched token supply, "
+                     "fuel-free big-step runs of the lexer over rendered byte strings with byte-level treatment of "
+                     "UTF-8, Pratt-loop invariant for soundness, induction on derivations in continuation form + fuel "
+                     "monotonicity for completeness, bracket counting) + model/implementation correspondence",
         "design_ref": "DESIGN.md section 7, C14",
     },
 }
